@@ -1,4 +1,4 @@
-import PyYetiVerif.Lemmas.BulkDmig
+import PyYetiVerif.Lemmas.BulkDmigText
 /-!
 # C13 — `rddmig (wtdmig X) = X` on the model
 
@@ -66,6 +66,41 @@ theorem dmig_frame_roundtrip (enc : Int → Val) (d : Dmig) (hshape : d.m.length
     exact ⟨(mem_readFrame_rows enc d _ hshape rl).mpr ⟨i, j, v, hi, hj, hat, hv⟩,
       (mem_readFrame_cols enc d _ hshape _).mpr ⟨i, j, v, hj, rfl, hat, hv⟩⟩
 
+/-- the written value field: `f"{v:16.9E}"` of an integer value with at most 10 digits (and the same
+with `D`) is exactly 16 columns, has no `$` or comma and ends in a digit -/
+theorem dmig_value_field (v : Int) (ec : Char) (hec : ec = 'E' ∨ ec = 'D') (hv : v.natAbs < 10 ^ 10) :
+    (fmtE9 v ec).length = 16 ∧ '$' ∉ fmtE9 v ec ∧ ',' ∉ fmtE9 v ec ∧ LastSolid (fmtE9 v ec) := by
+  obtain ⟨⟨h1, h2, h3⟩, h4⟩ := fmtE9_clean v ec hec hv
+  exact ⟨h1, h2, h3, h4⟩
+
+/-- `rdcards(f, "dmig", return_var="list")` on the physical lines of `wtdmig`: the header card and
+the column cards are found, sliced in 8- resp. 16-column fields and padded line by line into exactly
+the card values the reader theorems start from (`enc` = `nas_sscanf` of the written value field). -/
+theorem dmig_lines_cards (d : Dmig) (hc : d.Clean) :
+    rdcards (txt "dmig") d.lines = d.headerVals :: d.written d.encT :=
+  rdcards_dmig_lines d hc
+
+/-- `rddmig (wtdmig X) = X` on physical lines, one statement: for a clean, well-shaped frame with
+duplicate-free row and column labels, `rddmig` of the text of `wtdmig` returns exactly one frame,
+under the lower-cased name, with the sorted duplicate-free index of the non-null rows / columns and
+every cell equal to the term (`nas_sscanf` of its written field; 0 for a zero term; imaginary part 0
+for real types), nothing lost — forms 1/2/6/9, types 1–4. -/
+theorem dmig_text_roundtrip (d : Dmig) (hc : d.Clean) (hshape : d.m.length = d.rowids.length)
+    (hrn : d.rowids.Nodup) (hcn : d.ColsNodup) :
+    ∃ r, rdDmig d.lines = some [r] ∧ r.name = lower d.name ∧
+      (KeySorted r.rows ∧ r.rows.Nodup ∧ KeySorted r.cols ∧ r.cols.Nodup) ∧
+      (∀ rl, rl ∈ r.rows ↔ ∃ i j v, d.rowids[i]? = some rl ∧ j < d.colids.length ∧ d.At i j v ∧ v ≠ (0, 0)) ∧
+      (∀ cl, cl ∈ r.cols ↔ ∃ i j v, j < d.colids.length ∧ d.colLabel j = cl ∧ d.At i j v ∧ v ≠ (0, 0)) ∧
+      (∀ i j rl v, d.rowids[i]? = some rl → j < d.colids.length → d.At i j v →
+        r.cell rl (d.colLabel j) =
+          if v = (0, 0) then (Val.int 0, Val.int 0)
+          else (d.encT v.1, if d.mtype < 3 then Val.int 0 else d.encT v.2)) ∧
+      r.frame = r.rows.map fun rl => r.cols.map fun cl => r.cell rl cl := by
+  refine ⟨_, rdDmig_lines d hc, rfl, readFrame_sorted d.encT d _, mem_readFrame_rows d.encT d _ hshape,
+    mem_readFrame_cols d.encT d _ hshape, ?_, rfl⟩
+  intro i j rl v hi hj hat
+  exact cell_written d.encT d _ hshape hrn hcn i j rl v hi hj hat
+
 /-- duplicate labels are what the hypothesis excludes: two rows with the same label are written as
 two terms of one position and the reader keeps the last (necessity of `Nodup`) -/
 example :
@@ -92,5 +127,25 @@ example :
 example : ({ name := ['K'], single := false, mtype := 2, rowids := [(1, 1), (1, 2)],
              colids := [(1, 1), (1, 2)], m := [[(3, 0), (5, 0)], [(5, 0), (0, 0)]] } : Dmig).ColsNodup := by
   unfold Dmig.ColsNodup; decide
+
+def exK : Dmig :=
+  { name := txt "KAA", single := false, mtype := 2, rowids := [(1, 1), (1, 2)],
+    colids := [(1, 1), (1, 2)], m := [[(3, 0), (-5, 0)], [(-5, 0), (0, 0)]] }
+
+example : exK.Clean where
+  name_len := by decide
+  name_d := by decide
+  name_c := by decide
+  name8 := by decide
+  name16 := by decide
+  mtype_len := by decide
+  ncol_len := by decide
+  labels := by decide
+
+example : exK.lines = [txt "DMIG    KAA            0       6       2       0       0               2",
+    txt "DMIG*   KAA                            1               1",
+    txt "*                      1               1 3.000000000D+00",
+    txt "*                      1               2-5.000000000D+00",
+    txt "DMIG*   KAA                            1               2"] := by decide
 
 end PyYetiVerif.C13
